@@ -1,41 +1,15 @@
 (** caco3 file sets (file_set.go [newFileSet], [listAllFiles]) over a source
-    tree given as the list of its entries (paths relative to the source root,
-    clean, closed under parents).  Patterns: literals, '*' and '?' (classes
-    and escapes are outside the model: [simple_patb]).  Definitions only. *)
+    tree given as the list of its paths (relative to the source root, clean,
+    closed under parents), each with what [lstat] says it is; the paths
+    beneath a symbolic link to a directory are part of the list, as the
+    kernel presents them.  Patterns are Go's in full (Caco/Match.v); the
+    selection by [filepath.Glob] is modelled level by level, with its
+    well-formedness tests and its [os.Stat] of intermediate directories.
+    Definitions only. *)
 From Coq Require Import List NArith Bool.
-From Verif Require Import Lib.Path Caco.Names.
+From Verif Require Import Lib.Path Caco.Names Caco.Match.
 Import ListNotations.
 Local Open Scope N_scope.
-
-Definition star : N := 42.
-Definition qmark : N := 63.
-Definition lbrack : N := 91.
-Definition backslash : N := 92.
-
-Definition simple_patb (pat : str) : bool :=
-  forallb (fun c => negb (c =? lbrack) && negb (c =? backslash)) pat.
-
-(** [path.Match] / [filepath.Match] on the modelled fragment: '*' any run of
-    non-'/' bytes, '?' one non-'/' byte (ASCII names). *)
-Fixpoint gmatch (pat s : str) {struct pat} : bool :=
-  match pat with
-  | [] => is_empty s
-  | c :: pat' =>
-      if c =? star then
-        (fix skip (s : str) : bool :=
-           gmatch pat' s ||
-           match s with
-           | [] => false
-           | d :: s' => negb (d =? slash) && skip s'
-           end) s
-      else
-        match s with
-        | [] => false
-        | d :: s' =>
-            if c =? qmark then negb (d =? slash) && gmatch pat' s'
-            else (c =? d) && gmatch pat' s'
-        end
-  end.
 
 (** [strings.HasSuffix] / [strings.TrimSuffix] *)
 Definition has_suffix (s sfx : str) : bool := has_prefix (rev s) (rev sfx).
@@ -45,8 +19,21 @@ Definition trim_suffix (s sfx : str) : str :=
 Definition s_rec : str := [42; 42].              (* "**" *)
 Definition s_slash_rec : str := [47; 42; 42].    (* "/**" *)
 
-(** An entry of the source tree. *)
-Record tentry := { t_path : str; t_dir : bool }.
+(** What [lstat] reports for a path of the source tree. *)
+Inductive tkind :=
+| TFile        (* regular file *)
+| TDir         (* directory *)
+| TLinkFile    (* symbolic link whose target is a file (anywhere) *)
+| TLinkDir     (* symbolic link whose target is a directory (anywhere) *)
+| TLinkBad.    (* dangling symbolic link *)
+
+Record tentry := { t_path : str; t_kind : tkind }.
+
+Definition is_real_dir (k : tkind) : bool := match k with TDir => true | _ => false end.
+(** [os.Stat(p).IsDir()]: follows the link. *)
+Definition is_dir_stat (k : tkind) : bool := match k with TDir | TLinkDir => true | _ => false end.
+Definition is_link (k : tkind) : bool :=
+  match k with TLinkFile | TLinkDir | TLinkBad => true | _ => false end.
 
 Definition mem_str (x : str) (l : list str) : bool := existsb (str_eqb x) l.
 
@@ -66,27 +53,45 @@ Definition beneath (name d : str) : bool :=
 Definition rest_under (name d : str) : str :=
   if is_empty d then name else skipn (S (length d)) name.
 
-(** Directory elements between the listing root and the file. *)
-Definition dirs_between (name d : str) : list str := removelast (split_slash (rest_under name d)).
-
 Definition find_entry (tree : list tentry) (p : str) : option tentry :=
   find (fun e => str_eqb (t_path e) p) tree.
 
+(** The directories strictly between the listing root [d] and [name]
+    (full paths, outermost first). *)
+Fixpoint paths_from (pre : str) (segs : list str) : list str :=
+  match segs with
+  | [] => []
+  | x :: r => let q := if is_empty pre then x else pre ++ slash :: x in q :: paths_from q r
+  end.
+
+Definition dirs_between (name d : str) : list str :=
+  paths_from d (removelast (split_slash (rest_under name d))).
+
+(** [filepath.WalkDir] descends real directories only (a symbolic link is
+    reported as an entry, never followed) and [listAllFiles] prunes the
+    directories named in [skip_dirs]. *)
+Definition walkable (x : excl) (tree : list tentry) (q : str) : bool :=
+  match find_entry tree q with
+  | Some e => is_real_dir (t_kind e) && negb (mem_str (base_name q) (skip_dirs x))
+  | None => false
+  end.
+
 (** [listAllFiles(env.src(R))]; [None] = the walk fails (root missing).
-    [src_base] is the base name of the source root directory. *)
+    Regular files and symbolic links are listed, by name; nothing is read
+    through a link.  [src_base] is the base name of the source root. *)
 Definition list_all (x : excl) (src_base : str) (tree : list tentry) (R : str) : option (list str) :=
   let root_name := if is_empty R then src_base else base_name R in
   let walk_dir :=
     if mem_str root_name (skip_dirs x) then []
     else map t_path (filter (fun e =>
-           negb (t_dir e) && beneath (t_path e) R &&
-           forallb (fun d => negb (mem_str d (skip_dirs x))) (dirs_between (t_path e) R) &&
+           negb (is_real_dir (t_kind e)) && beneath (t_path e) R &&
+           forallb (walkable x tree) (dirs_between (t_path e) R) &&
            file_ok x (base_name (t_path e))) tree) in
   if is_empty R then Some walk_dir
   else match find_entry tree R with
        | None => None
        | Some e =>
-           if t_dir e then Some walk_dir
+           if is_real_dir (t_kind e) then Some walk_dir
            else Some (if file_ok x root_name then [R] else [])
        end.
 
@@ -102,24 +107,87 @@ Definition ignore_pats (p : str) (r : rule) : list str :=
 (** The directory-ignore test of [newFileSet]'s [ignore] closure. *)
 Definition under_ignored_dir (name d : str) : bool := beneath name d.
 
+(** A bad ignore pattern is logged and matches nothing. *)
 Definition ignored (p : str) (r : rule) (name : str) : bool :=
   existsb (under_ignored_dir name) (ignore_dirs p r) ||
-  existsb (fun i => gmatch i name) (ignore_pats p r).
+  existsb (fun i => matches i name) (ignore_pats p r).
 
 Definition is_recursive (sel : str) : bool :=
   has_suffix sel s_slash_rec || str_eqb sel s_rec.
 
+(** ** filepath.Glob over the tree *)
+
+Definition exists_path (tree : list tentry) (q : str) : bool :=
+  is_empty q || match find_entry tree q with Some _ => true | None => false end.
+
+(** [os.Stat(dir)] succeeds and is a directory: symbolic links are followed. *)
+Definition stat_is_dir (tree : list tentry) (d : str) : bool :=
+  is_empty d || match find_entry tree d with Some e => is_dir_stat (t_kind e) | None => false end.
+
+(** Names in directory [d]. *)
+Definition child_names (tree : list tentry) (d : str) : list str :=
+  flat_map (fun e =>
+    let r := rest_under (t_path e) d in
+    if beneath (t_path e) d && negb (is_empty r) && noslashb r then [r] else []) tree.
+
+Definition join_dir (d n : str) : str := if is_empty d then n else d ++ slash :: n.
+
+(** [glob(dir, pattern, matches)] for each directory of [ds]: [None] when a
+    [Match] reports [ErrBadPattern]. *)
+Fixpoint glob_level (tree : list tentry) (ds : list str) (seg : str) : option (list str) :=
+  match ds with
+  | [] => Some []
+  | d :: rest =>
+      let names := if stat_is_dir tree d then child_names tree d else [] in
+      if existsb (fun n => match fp_match seg n with MBad | MFuel => true | _ => false end) names
+      then None
+      else match glob_level tree rest seg with
+           | None => None
+           | Some ms => Some (map (join_dir d) (filter (fp_matches seg) names) ++ ms)
+           end
+  end.
+
+(** [globWithLimit] on the pattern's '/'-separated elements (given last
+    first): the pattern is tested with [Match(pattern, "")], a pattern without
+    magic characters is an [Lstat], otherwise the directory part is globbed
+    first (or taken literally when it has no magic) and the last element is
+    matched against the names in each resulting directory. *)
+Fixpoint glob_rev (tree : list tentry) (segs_rev : list str) : option (list str) :=
+  match segs_rev with
+  | [] => Some [[]]
+  | seg :: pre_rev =>
+      let whole := join_slash (rev segs_rev) in
+      if negb (glob_accepts whole) then None
+      else if negb (has_meta whole) then Some (if exists_path tree whole then [whole] else [])
+      else
+        let dirp := join_slash (rev pre_rev) in
+        match (if has_meta dirp then glob_rev tree pre_rev else Some [dirp]) with
+        | None => None
+        | Some ds => glob_level tree ds seg
+        end
+  end.
+
+(** [filepath.Glob(env.src(pat))] with every match made relative to the
+    source root ([filepath.Rel]; the root itself is "."). *)
+Definition glob_rel (tree : list tentry) (pat : str) : option (list str) :=
+  match glob_rev tree (rev (rel_segs pat)) with
+  | None => None
+  | Some ms => Some (map (fun m => if is_empty m then s_dot else m) ms)
+  end.
+
+Inductive sres :=
+| SOk (ms : list str)
+| SListErr          (* listAllFiles failed *)
+| SGlobErr.         (* filepath.Glob: ErrBadPattern *)
+
 (** Paths (relative to the source root) one [Select] entry matches. *)
-Definition select_matches (x : excl) (src_base : str) (tree : list tentry) (p sel : str)
-  : option (list str) :=
+Definition select_matches (x : excl) (src_base : str) (tree : list tentry) (p sel : str) : sres :=
   if is_recursive sel then
     let R := if str_eqb sel s_rec then path_join [p]
              else make_rel_path p (trim_suffix sel s_slash_rec) in
-    list_all x src_base tree R
+    match list_all x src_base tree R with Some ms => SOk ms | None => SListErr end
   else
-    let pat := make_rel_path p sel in
-    Some (if is_empty pat then [s_dot]     (* Glob(srcDir) = the root; Rel gives "." *)
-          else map t_path (filter (fun e => gmatch pat (t_path e)) tree)).
+    match glob_rel tree (make_rel_path p sel) with Some ms => SOk ms | None => SGlobErr end.
 
 Fixpoint insert_str (x : str) (l : list str) : list str :=
   match l with
@@ -132,12 +200,12 @@ Fixpoint insert_str (x : str) (l : list str) : list str :=
 (** [strutil.SortedList] of a set. *)
 Definition sort_set (l : list str) : list str := fold_right insert_str [] l.
 
+Inductive sel_err := SelNoFiles (sel : str) | SelListErr (sel : str) | SelGlobErr (sel : str).
+
 Inductive fs_result :=
 | FsOk (name : str) (files : list str)
-| FsNoFiles (sel : str)      (* "%q select no files" *)
-| FsListErr (sel : str).     (* "list all files %q" *)
-
-Inductive sel_err := SelNoFiles (sel : str) | SelListErr (sel : str).
+| FsErr (e : sel_err).
+(* SelNoFiles: "%q select no files"; SelListErr: "list all files %q"; SelGlobErr: "glob %q" *)
 
 Fixpoint run_selects (x : excl) (src_base : str) (tree : list tentry) (p : str) (r : rule)
          (sels : list str) (acc : list str) : sel_err + list str :=
@@ -145,9 +213,10 @@ Fixpoint run_selects (x : excl) (src_base : str) (tree : list tentry) (p : str) 
   | [] => inr acc
   | sel :: rest =>
       match select_matches x src_base tree p sel with
-      | None => inl (SelListErr sel)
-      | Some [] => inl (SelNoFiles sel)
-      | Some ms =>
+      | SListErr => inl (SelListErr sel)
+      | SGlobErr => inl (SelGlobErr sel)
+      | SOk [] => inl (SelNoFiles sel)
+      | SOk ms =>
           run_selects x src_base tree p r rest
             (acc ++ filter (fun m => negb (ignored p r m)) ms)
       end
@@ -156,7 +225,6 @@ Fixpoint run_selects (x : excl) (src_base : str) (tree : list tentry) (p : str) 
 Definition file_set (x : excl) (src_base : str) (tree : list tentry) (p : str) (r : rule) : fs_result :=
   let explicit := map (make_path p) (r_files r) in
   match run_selects x src_base tree p r (r_select r) explicit with
-  | inl (SelNoFiles sel) => FsNoFiles sel
-  | inl (SelListErr sel) => FsListErr sel
+  | inl e => FsErr e
   | inr all => FsOk (make_rel_path p (r_name r)) (sort_set all)
   end.
